@@ -11,7 +11,7 @@ import (
 func init() {
 	register("C08", "Decides structural necessary conditions of 'backend faults and bad requests never surface as success': "+
 		"(R1) the gRPC-code→HTTP-status decision table of toHTTPStatus equals the table in the property for every code, non-status errors give 500, the ErrorMapper is consulted first; "+
-		"(R2) every return of every (status, error) handler and rpc wrapper is (200, nil) or (non-200, non-nil error) on all paths, and ServeHTTP rejects wrong methods / unparsable forms before calling the handler and converts (non-200, nil) into 500; "+
+		"(R2) every return of every (status, error) function of the front end (handlers and the functions that fetch a backend reply for them) is (200, nil) or (non-200, non-nil error) on all paths, and ServeHTTP rejects wrong methods / unparsable forms before calling the handler and converts (non-200, nil) into 500; "+
 		"(R3) for each endpoint and each cause named in the property (backend error, garbled root, tree too small, surplus or mis-indexed leaves, absent parts, bad proof hashes, undecodable leaf, parse failures) the control-flow edge taken on that cause can only reach returns of the prescribed status class with a non-nil error, and parse failures cannot reach a backend call; "+
 		"(R4) optional parts of backend replies are nil-guarded or read through nil-safe getters before use; (R5) no SCT is recorded on any fault edge of add-chain; (R6) SendHTTPError withholds the error text exactly when masking is on and the status is 500; checkAuditPath rejects wrong-sized hashes; (R7) a function without a status result that obtains an error from a backend RPC, or from a function on the way to one, hands on that very error value on every return that may execute once it is non-nil, so the gRPC status reaches toHTTPStatus. "+
 		"NOT covered: panics from causes other than absent optional message parts, behaviour of net/http and gRPC, the dynamic values of statuses produced by an injected ErrorMapper.",
@@ -86,10 +86,10 @@ func returnShapes(r *Run, fn *ssa.Function) {
 				r.Pass(key, r.Where(ret), "(const non-200, non-nil error)")
 			} else {
 				// dynamic status with constructed error: must come from toHTTPStatus or a wrapper
-				r.Check(key, anyGlob("(*trillian/ctfe.logInfo).toHTTPStatus(*) || trillian/ctfe.rpc*(*)#1", sd), r.Where(ret), "dynamic status "+sd+" with non-nil error")
+				r.Check(key, glob("(*trillian/ctfe.logInfo).toHTTPStatus(*)", sd) || c08RelayedStatus(r, sv), r.Where(ret), "dynamic status "+sd+" with non-nil error")
 			}
 		default: // dynamic error: the return must be unreachable when it is nil
-			if !anyGlob("(*trillian/ctfe.logInfo).toHTTPStatus(*) || trillian/ctfe.rpc*(*)#1", sd) {
+			if !glob("(*trillian/ctfe.logInfo).toHTTPStatus(*)", sd) && !c08RelayedStatus(r, sv) {
 				if _, isConst := sv.(*ssa.Const); !isConst {
 					r.Fail(key, r.Where(ret), "dynamic status "+sd+" is neither toHTTPStatus(err) nor a wrapper's status")
 					continue
@@ -194,7 +194,11 @@ func runC08(r *Run) {
 	for _, fn := range fns {
 		returnShapes(r, fn)
 	}
-	r.Floor("status-error functions", len(fns), 11)
+	// eight endpoint handlers and addChainInternal; functions that only fetch a backend reply for one handler (and
+	// return its status) are checked like the others when they exist, but whether such a helper exists or its body
+	// sits in the handler is not a fact about behaviour — the floor counts what does not depend on it
+	r.Floor("status-error functions", len(fns), 9)
+	r.Floor("status-error functions installed as endpoint handlers", c08EntryHandlers(r, fns), 8)
 	if fn := r.Fn("(trillian/ctfe.AppHandler).ServeHTTP"); fn != nil {
 		handlerCalls := asInstrs(CallsTo(fn, "dyn(p0.Handler)"))
 		r.Check("ServeHTTP:handler-call", len(handlerCalls) == 1, r.FnPos(fn), fmt.Sprintf("%d calls of a.Handler", len(handlerCalls)))
@@ -266,7 +270,12 @@ func runC08(r *Run) {
 		pk := fnPkg(fn)
 		return pk != nil && ShortPkg(pk.Path()) == "trillian/ctfe"
 	}, "github.com/google/trillian*")
-	r.Floor("optional backend-reply parts used in ctfe", nOpt, 6)
+	// each (function, optional part) use is checked above; the floor counts the distinct parts of backend messages
+	// used (QueueLeafResponse.QueuedLeaf, QueuedLogLeaf.Leaf, GetEntryAndProofResponse.Leaf / .Proof,
+	// GetConsistencyProofResponse.Proof), which does not change when a use moves between a helper and its caller
+	nParts := c08DistinctOptionalParts(r, func(fn *ssa.Function) bool { return inCtfePkg(fn) }, "github.com/google/trillian*")
+	r.Check("floor:optional backend-reply parts checked", nOpt >= nParts, "-", fmt.Sprintf("%d (function, part) uses checked for %d distinct parts", nOpt, nParts))
+	r.Floor("optional backend-reply parts used in ctfe", nParts, 5)
 
 	// ---- R7: backend errors reach toHTTPStatus with their gRPC status intact
 	r.Rule("C08.R7")
@@ -343,6 +352,7 @@ func c08Edges(r *Run) {
 		{"trillian/ctfe.getSTHConsistency", "backend-error", nilAtom("iface(trillian.TrillianLogClient).GetConsistencyProof(*)#1"), "non", "(*trillian/ctfe.logInfo).toHTTPStatus(p1, iface(trillian.TrillianLogClient).GetConsistencyProof(*)#1)"},
 		{"trillian/ctfe.getSTHConsistency", "root-garbled", nilAtom(root), "non", "500"},
 		{"trillian/ctfe.getSTHConsistency", "tree-too-small", ordAtomR("ROOT.TreeSize", "trillian/ctfe.parseGetSTHConsistencyRange(p3)#1"), "<", "400"},
+		{"trillian/ctfe.getSTHConsistency", "proof-absent", nilAtom("iface(trillian.TrillianLogClient).GetConsistencyProof(*)#0.Proof"), "nil", "500"},
 		{"trillian/ctfe.getSTHConsistency", "proof-hash-size", boolAtom("trillian/ctfe.checkAuditPath(*)"), "F", "500"},
 		// get-proof-by-hash
 		{"trillian/ctfe.getProofByHash", "hash-missing", ordAtomR("(*http.Request).FormValue(*)", `""`), "=", "400"},
@@ -356,29 +366,30 @@ func c08Edges(r *Run) {
 		{"trillian/ctfe.getProofByHash", "proof-hash-size", boolAtom("trillian/ctfe.checkAuditPath(*)"), "F", "500"},
 		// get-entries
 		{"trillian/ctfe.getEntries", "params-bad", nilAtom("trillian/ctfe.parseGetEntriesRange(*)#2"), "non", "400"},
-		{"trillian/ctfe.getEntries", "backend-or-fix-error", nilAtom("trillian/ctfe.rpcGetLeavesByRange(*)#2"), "non", "trillian/ctfe.rpcGetLeavesByRange(*)#1"},
 		{"trillian/ctfe.getEntries", "root-garbled", nilAtom(root), "non", "500"},
 		{"trillian/ctfe.getEntries", "tree-too-small", ordAtomR("ROOT.TreeSize", "trillian/ctfe.parseGetEntriesRange(*)#0"), "<,=", "400"},
 		{"trillian/ctfe.getEntries", "surplus-leaves", ordAtomR("len(*.Leaves)", "((1 + trillian/ctfe.parseGetEntriesRange(*)#1) - trillian/ctfe.parseGetEntriesRange(*)#0)"), ">", "500"},
 		{"trillian/ctfe.getEntries", "leaf-misindexed", ordAtomR("*.Leaves[*].LeafIndex", "(* + trillian/ctfe.parseGetEntriesRange(*)#0)"), "<,>", "500"},
-		{"trillian/ctfe.getEntries", "marshal-entries-failed", nilAtom("trillian/ctfe.marshalGetEntriesResponse(*)#1"), "non", "500"},
 		// get-entry-and-proof
 		{"trillian/ctfe.getEntryAndProof", "params-bad", nilAtom("trillian/ctfe.parseGetEntryAndProofParams(p3)#2"), "non", "400"},
-		{"trillian/ctfe.getEntryAndProof", "backend-or-fix-error", nilAtom("trillian/ctfe.rpcGetEntryAndProof(*)#2"), "non", "trillian/ctfe.rpcGetEntryAndProof(*)#1"},
 		{"trillian/ctfe.getEntryAndProof", "root-garbled", nilAtom(root), "non", "500"},
 		{"trillian/ctfe.getEntryAndProof", "tree-too-small", ordAtomR("ROOT.TreeSize", "trillian/ctfe.parseGetEntryAndProofParams(p3)#1"), "<", "400"},
-		{"trillian/ctfe.getEntryAndProof", "leaf-absent", nilAtom("trillian/ctfe.rpcGetEntryAndProof(*)#0.Leaf"), "nil", "500"},
 		{"trillian/ctfe.getEntryAndProof", "leaf-empty", ordAtomR("len(*.Leaf.LeafValue)", "0"), "=", "500"},
-		{"trillian/ctfe.getEntryAndProof", "proof-absent", nilAtom("trillian/ctfe.rpcGetEntryAndProof(*)#0.Proof"), "nil", "500"},
-		// wrappers
-		{"trillian/ctfe.rpcGetLeavesByRange", "backend-error", nilAtom("iface(trillian.TrillianLogClient).GetLeavesByRange(*)#1"), "non", "(*trillian/ctfe.logInfo).toHTTPStatus(p1, iface(trillian.TrillianLogClient).GetLeavesByRange(*)#1)"},
-		{"trillian/ctfe.rpcGetLeavesByRange", "fix-leaf-error", nilAtom("iface(trillian/ctfe.leafChainBuilder).FixLogLeaf(*)"), "non", "500"},
-		{"trillian/ctfe.rpcGetEntryAndProof", "backend-error", nilAtom("iface(trillian.TrillianLogClient).GetEntryAndProof(*)#1"), "non", "(*trillian/ctfe.logInfo).toHTTPStatus(p1, iface(trillian.TrillianLogClient).GetEntryAndProof(*)#1)"},
-		{"trillian/ctfe.rpcGetEntryAndProof", "fix-leaf-error", nilAtom("iface(trillian/ctfe.leafChainBuilder).FixLogLeaf(*)"), "non", "500"},
 		// get-roots
 		{"trillian/ctfe.getRoots", "encode-failed", nilAtom("(*json.Encoder).Encode(*)"), "non", "500"},
 	}
+	// the two entry-reading endpoints: the causes that arise where the backend's reply is fetched are stated on the
+	// function that issues the RPC — the handler itself or the one function it calls for it
+	rows = append(rows, c08FetchRows(r, "trillian/ctfe.getEntries", "GetLeavesByRange")...)
+	rows = append(rows, c08FetchRows(r, "trillian/ctfe.getEntryAndProof", "GetEntryAndProof")...)
 	rpcCount := 0
+	type prepared struct {
+		row edgeRow
+		fn  *ssa.Function
+		sp  EdgeSpec
+		ev  *c08EdgeResult
+	}
+	var todo []*prepared
 	for _, row := range rows {
 		fn := r.Fn(row.fn)
 		if fn == nil {
@@ -397,10 +408,27 @@ func c08Edges(r *Run) {
 		// a failed request never records an SCT and parse failures never reach the backend
 		sp.Unreach = asInstrs(CallsTo(fn, "iface(trillian/ctfe.RequestLog).IssueSCT"))
 		if row.status == "400" && (strings.Contains(row.name, "params") || strings.Contains(row.name, "hash-") || strings.Contains(row.name, "tree-size-") || row.name == "body-unparsable" || row.name == "chain-rejected" || row.name == "leaf-build-failed") {
-			sp.Unreach = append(sp.Unreach, asInstrs(CallsTo(fn, rpcIface))...)
-			sp.Unreach = append(sp.Unreach, asInstrs(CallsTo(fn, "trillian/ctfe.rpc*"))...)
+			sp.Unreach = append(sp.Unreach, asInstrs(c08BackendCalls(fn))...)
 		}
-		r.FailEdge(fn, short(row.fn), sp)
+		todo = append(todo, &prepared{row, fn, sp, c08EdgeEval(r, fn, sp)})
+	}
+	for i, p := range todo {
+		// the causes of the same function, this one at index me
+		var same []*c08EdgeResult
+		me := -1
+		for k, q := range todo {
+			if q.fn == p.fn {
+				if k == i {
+					me = len(same)
+				}
+				same = append(same, q.ev)
+			}
+		}
+		// FailEdge decides (and reports); only a cause that is tested where later causes can still intervene
+		// is decided among the causes of its function
+		if !c08EdgeAmongCauses(r, p.fn, short(p.row.fn), p.sp, me, same) {
+			r.FailEdge(p.fn, short(p.row.fn), p.sp)
+		}
 	}
 	// floor: the backend RPCs issued by the front end
 	for _, fn := range r.P.ModFuncs {
